@@ -510,7 +510,45 @@ func (x *Ctx) scratchUseOK(v ssa.Value, seen map[ssa.Value]bool) string {
 			if u.Val == v {
 				continue // storing the buffer back / moving it between fields
 			}
-		case *ssa.MapUpdate, *ssa.Return:
+		case *ssa.Return:
+			// a private helper handing the buffer to its callers: what they do with it decides
+			fn := u.Parent()
+			if !x.isPrivateHelper(fn) {
+				return "escapes with its old contents"
+			}
+			idx := -1
+			for i, res := range u.Results {
+				if res == v {
+					idx = i
+				}
+			}
+			node := x.W.CG().Nodes[fn]
+			if idx < 0 || node == nil || len(node.In) == 0 {
+				return "escapes with its old contents"
+			}
+			for _, e := range node.In {
+				site, ok := e.Site.(*ssa.Call)
+				if !ok || e.Caller.Func == nil || !x.W.InLib(e.Caller.Func) {
+					return "escapes with its old contents"
+				}
+				var rv ssa.Value
+				if fn.Signature.Results().Len() == 1 {
+					rv = site
+				} else {
+					for _, r2 := range *site.Referrers() {
+						if ex, ok := r2.(*ssa.Extract); ok && ex.Index == idx {
+							rv = ex
+						}
+					}
+				}
+				if rv == nil {
+					continue // result unused at this call
+				}
+				if msg := x.scratchUseOK(rv, seen); msg != "" {
+					return msg
+				}
+			}
+		case *ssa.MapUpdate:
 			return "escapes with its old contents"
 		default:
 			return fmt.Sprintf("has an unrecognised use (%T)", u)
